@@ -415,6 +415,11 @@ def draw_dict_items(rng, kind, nmax=3):
         k = rng.pick(hot if rng.chance(0.7) else sorted(menu))
         if k not in keys:
             keys.append(k)
+    if rng.chance(0.2):
+        # keys that are valid in BOTH vocabularies
+        k = rng.pick(['line', 'textrotate'])
+        if k not in keys:
+            keys.append(k)
     return [[k, rng.pick(menu[k])] for k in keys]
 
 
@@ -429,7 +434,20 @@ def perturb_items(rng, kind, current):
         return None
     absent = [k for k in sorted(menu) if k not in current]
     how = rng.pick(['change', 'drop', 'add', 'replace_key', 'add_none',
-                    'to_none'])
+                    'to_none', 'reorder', 'swap_values'])
+    if how == 'reorder':
+        # the same entries inserted in another order: an EQUAL dict
+        return items[::-1] if len(items) >= 2 else None
+    if how == 'swap_values':
+        # the values of two keys exchanged (only where both results are
+        # different from the original entries)
+        if len(items) < 2:
+            return None
+        i, j = rng.sample(range(len(items)), 2)
+        if build(items[i][1]) == build(items[j][1]):
+            return None
+        items[i][1], items[j][1] = items[j][1], items[i][1]
+        return items
     if how in ('change', 'drop', 'replace_key', 'to_none') and not items:
         how = 'add'
     if how in ('add', 'replace_key', 'add_none') and not absent:
@@ -1050,7 +1068,9 @@ class Machine:
                 menu = META_MENU if f == 'meta' else VISUAL_MENU
                 e = rng.weighted([('set', 4), ('del', 2), ('update', 2),
                                   ('clear', 1), ('pop', 1), ('tag', 2),
-                                  ('setdefault', 1)])
+                                  ('setdefault', 1), ('readd', 2)])
+                if e == 'readd' and not md.d:
+                    e = 'set'
                 if inplace_only:
                     f, d, md, e = 'meta', getattr(to, 'meta'), tm.meta, 'tag'
                 if e in ('del', 'pop') and not md.d:
@@ -1073,6 +1093,13 @@ class Machine:
                     d.pop(k)
                     md.d.pop(k)
                     what += f'{f}.pop({k!r})'
+                elif e == 'readd':
+                    # remove an entry and put the same value back: the
+                    # insertion order changes, the value of the dict does not
+                    k = rng.pick(sorted(md.d))
+                    v = d.pop(k)
+                    d[k] = v
+                    what += f'{f}: pop and re-add {k!r}'
                 elif e == 'update':
                     items = draw_dict_items(rng, f)
                     d.update({k: build(v) for k, v in items})
@@ -1906,6 +1933,14 @@ class Machine:
             if invalid:
                 seq.insert(rng.randint(0, len(seq)), bad)
             arg = seq
+            if invalid:
+                # the argument form: list, tuple, iterator, generator, map
+                form = rng.pick(['list', 'list', 'tuple', 'iter', 'gen',
+                                 'map'])
+                arg = {'list': lambda: seq, 'tuple': lambda: tuple(seq),
+                       'iter': lambda: iter(seq),
+                       'gen': lambda: (x for x in seq),
+                       'map': lambda: map(lambda x: x, seq)}[form]()
             if entry.startswith('ctor'):
                 fn = lambda: Regions(arg)  # noqa
             else:
